@@ -268,7 +268,9 @@ def augment_structured(lines, rng, per_op=40, max_digits=24):
                     keep = rng.randrange(1, nd + 1) if nd else 0        # same top `keep` digits, different lower digits
                     lowbits = 64 * (nd - keep)
                     shared = ((a >> lowbits) << lowbits) | (rng.randrange(1 << lowbits) if lowbits else 0)
-                    v = rng.choice([a, a + 1, max(a - 1, 0), a * rng.choice([2, 3, 5, 1 << 64, (1 << 64) + 1, MAX]), a << (64 * rng.randrange(1, 3)),
+                    bk = 1 << (64 * rng.randrange(1, max(2, nd + 1)))     # a power of the digit base near a's size
+                    v = rng.choice([a + bk, max(a - bk, 0), a + bk + 1, max(a - bk - 1, 0), a + bk - 1, a, a + 1, max(a - 1, 0),
+                                    a * rng.choice([2, 3, 5, 1 << 64, (1 << 64) + 1, MAX]), a << (64 * rng.randrange(1, 3)),
                                     a >> 64, a >> 1, a * v if v.bit_length() < 400 else a, a ^ 1, a | 1, shared, shared, shared])
                     if rng.randrange(4) == 0:
                         vals[0], v = v, a               # the related value first
@@ -281,3 +283,22 @@ def augment_structured(lines, rng, per_op=40, max_digits=24):
                     t[i] = wu(v)
             out.append(" ".join(t))
     return out
+
+
+def cf_pair(rng, nq, huge_at=None):
+    """(a, b) with a > b > 0, gcd g, whose Euclidean quotient sequence is chosen: mostly 1 … 3 (the worst case for
+    Euclid / Lehmer), some one-digit quotients, and at `huge_at` positions quotients of 2^32 … 2^64 and multi-digit ones
+    (a Lehmer-style batched gcd must fall back to a full division exactly there)."""
+    qs = []
+    for i in range(nq):
+        if huge_at is not None and i in huge_at:
+            qs.append(rng.choice([(1 << 40) + 12345, rng.randrange(1 << 32, 1 << 64), (1 << 64) - 1, 1 << 64, rng.randrange(B, B * B), (1 << 63)]))
+        else:
+            qs.append(rng.choice([1, 1, 1, 2, 2, 3, rng.randrange(1, 16), rng.randrange(1, 1 << 20)]))
+    g = rng.choice([1, 1, 2, 6, rng.randrange(1, B) | 1, (1 << 64) + 3])
+    a, b = 1, 0
+    for q in reversed(qs):
+        a, b = q * a + b, a
+    if b == 0:
+        a, b = a + 1, 1
+    return a * g, b * g
